@@ -1,9 +1,12 @@
 mod adapter;
+mod batching;
+mod candmodel;
 mod case;
 mod checks;
 mod data;
 mod qgen;
 mod model;
+mod pruning;
 mod mon;
 mod qast;
 mod refeval;
@@ -30,6 +33,7 @@ fn main() {
     let seed: u64 = arg_val(&args, "--seed").and_then(|s| s.parse().ok()).unwrap_or(1);
     let cases: u64 = arg_val(&args, "--cases").and_then(|s| s.parse().ok()).unwrap_or(500);
     let out = arg_val(&args, "--out");
+    let param = |name: &str, default: u64| -> u64 { arg_val(&args, name).and_then(|s| s.parse().ok()).unwrap_or(default) };
     let progress = arg_val(&args, "--progress");
     let replay_dir = PathBuf::from(arg_val(&args, "--replay-dir").unwrap_or_else(|| "/verif/replays".into()));
 
@@ -41,6 +45,14 @@ fn main() {
             let res = match w.kind.as_str() {
                 "c01" => checks::c01::replay(w.case.as_ref().expect("witness without case")),
                 "c09" => checks::c09::replay(w.case.as_ref().expect("witness without case")),
+                "c02" => checks::c02::replay(w.case.as_ref().expect("witness without case"), &w.extra),
+                "c03" => checks::c03::replay(w.case.as_ref().expect("witness without case")),
+                "c04" => checks::c04::replay(w.case.as_ref().expect("witness without case")),
+                "c12" => checks::c12::replay(w.case.as_ref().expect("witness without case")),
+                "c14" => checks::c14::replay(w.case.as_ref().expect("witness without case")),
+                "c22" => checks::c22::replay(w.case.as_ref().expect("witness without case")),
+                "c23" => checks::c23::replay(w.case.as_ref().expect("witness without case"), &w.extra),
+                "c15" => checks::c15::replay(w.case.as_ref().expect("witness without case"), &w.extra),
                 "c21" => checks::c21::replay(w.case.as_ref().expect("witness without case")),
                 "c13" => checks::c13::replay(w.case.as_ref().expect("witness without case")),
                 "c11" => checks::c11::replay(w.case.as_ref().expect("witness without case")),
@@ -77,6 +89,17 @@ fn main() {
             match prop {
                 "C01" => checks::c01::run(&mut report, seed, cases),
                 "C09" => checks::c09::run(&mut report, seed, cases),
+                "C22" => checks::c22::run(&mut report, seed, cases),
+                "C23" => checks::c23::run(&mut report, seed, cases),
+                "C14" => {
+                    let d = checks::c14::run(&mut report, seed, cases);
+                    report.digests = d;
+                }
+                "C12" => checks::c12::run(&mut report, seed, cases),
+                "C15" => checks::c15::run(&mut report, seed, cases),
+                "C04" => checks::c04::run(&mut report, seed, cases, param("--allow-ge-tag", 0) == 1),
+                "C02" => checks::c02::run(&mut report, seed, cases, param("--schedules", 5) as usize),
+                "C03" => checks::c03::run(&mut report, seed, cases, param("--max-vertices", 16) as usize),
                 "C21" => checks::c21::run(&mut report, seed, cases),
                 "C13" => checks::c13::run(&mut report, seed, cases),
                 "C11" => checks::c11::run(&mut report, seed, cases),
